@@ -81,7 +81,7 @@ ResolveObject(u, i, stack, memo) ==
 KindOrder == <<"headers", "parameters", "requestBodies", "responses", "schemas", "securitySchemes", "examples", "callbacks">>
 
 (* the root's own component entries of one kind, names sorted; "U" is the root's own reference when it sits in components *)
-NameOrder == <<"A", "Acc", "B", "L", "Rec", "U", "V", "W", "X", "Y">>
+NameOrder == <<"A", "Acc", "B", "C", "L", "Rec", "U", "V", "W", "X", "Y">>
 RootEntries(u, pos, kind) ==
    LET named == {u.slots[i].name : i \in {i \in DOMAIN u.slots : u.slots[i].file = Root /\ u.slots[i].kind = kind}}
                 \cup (IF pos = "comp" /\ u.use.kind = kind THEN {"U"} ELSE {})
